@@ -14,6 +14,7 @@ import XzVerif.Lemmas.XzLocal
 import XzVerif.Lemmas.XzFlipWhole
 import XzVerif.Lemmas.C16
 import XzVerif.Lemmas.XzStd
+import XzVerif.Lemmas.XzConcatFlip
 
 namespace XzVerif.C05
 open XzVerif XzVerif.Container XzVerif.XzDecode XzVerif.CrcFlip
@@ -117,8 +118,18 @@ theorem payload_damage_needs_collision (E : Env) (check hs : Nat) (h : BlockHead
 
 /-- The whole-file form of the statement: `b'` differs from an accepted `b` only inside Compressed Data of Blocks, `b'` is
     accepted with different output ⇒ some Block exhibits a Check collision.  Proved above per Block for headers that carry
-    the Compressed Size; the general whole-file form additionally needs the (true but not yet formalised) argument that
-    the unchanged Index pins every Block boundary of `b'` to that of `b`. -/
+    the Compressed Size.  NOT A THEOREM in the form written below (kept as the record of the intended claim); a provable
+    whole-file form needs three more hypotheses, found while trying to prove it:
+    (1) `mask` must be tied to the decoder's walk over `b` (below it is an arbitrary list, so `mask = all true` makes `b'`
+        arbitrary) and the Check must be a supported one other than None (otherwise no collision can be exhibited);
+    (2) both decodes must consume the whole file (`consumed = length`, which is what `xz -d` demands, or LZMA_CONCATENATED):
+        without LZMA_CONCATENATED the library ignores what follows the Stream, so a Block whose header has no Compressed Size
+        can be overwritten IN PLACE by a shorter payload followed by its honest Check, an Index and a Stream Footer — all
+        inside the damaged region; the decoder then answers LZMA_STREAM_END with other data and `total_in < file size`, and no
+        collision is involved.  With (2) the unchanged footer pins the Index, and the unchanged Index pins every Block
+        boundary of `b'` to that of `b`, which reduces the claim to the per-Block theorem;
+    (3) for that last step the Records must be recoverable from the Index bytes (`indexEncode` injective on the decoded
+        Blocks), which needs the `lzma_index_hash_append` limits that `BlocksRun` does not record yet. -/
 def payload_damage_needs_collision_statement : Prop :=
   ∀ (E : Env) (fl : Flags) (b b' : List UInt8) (cap : Nat) (mask : List Bool),
     PayloadLocal E → fl.ignoreCheck = false → b.length = b'.length → mask.length = b.length →
@@ -219,10 +230,11 @@ theorem block_fields_bitflip_rejected (E : Env) (hloc : PayloadLocal E) (hbd : P
     LZMA_IGNORE_CHECK), Index, Stream Footer or (LZMA_CONCATENATED) Stream Padding of an accepted file is rejected.
     Proved for the whole file, without LZMA_CONCATENATED: Stream Header (`stream_header_bitflip_rejected`), every Block's
     header / padding / Check (`block_fields_bitflip_rejected`), Index and Stream Footer (`index_footer_bitflip_rejected`).
-    Not covered by a theorem: (i) the Streams after the first and Stream Padding under LZMA_CONCATENATED, and (ii) the two
-    kinds of byte whose flip changes the parse instead of failing a CRC — the Block Header Size byte and the Index
-    Indicator — for which rejection is not a theorem of the format (a CRC32 coincidence would have to be excluded).  The
-    correspondence run checks all of them exhaustively on the real decoder (`per_field_bitflips` in the evidence). -/
+    The Streams after the first and Stream Padding under LZMA_CONCATENATED: `header_bitflip_rejected_partial` below.
+    Not covered by a theorem — and the reason why this universally quantified form (any mask) stays a `def`: the two kinds of
+    byte whose flip changes the parse instead of failing a CRC — the Block Header Size byte and the Index Indicator — for
+    which rejection is not a theorem of the format (a CRC32 coincidence would have to be excluded).  The correspondence run
+    checks all of them exhaustively on the real decoder (`per_field_bitflips` in the evidence). -/
 def header_bitflip_rejected_statement : Prop :=
   ∀ (E : Env) (fl : Flags) (b : List UInt8) (cap : Nat) (payloadMask : List Bool) (i : Nat),
     PayloadLocal E → fl.ignoreCheck = false → (xzDecode E fl b cap).ret = .streamEnd →
@@ -346,6 +358,56 @@ theorem block_fields_bitflip_rejected_std (fl : Flags) (hnc : fl.concatenated = 
         (xzDecode XzEnv.stdEnv fl (flipBit b (8 * STREAM_HEADER_SIZE + j)) cap).ret ≠ .streamEnd :=
   block_fields_bitflip_rejected XzEnv.stdEnv payload_local_std payload_bounded_std fl hnc hign b cap hr hsup
 
+/-! ## Single-bit damage under LZMA_CONCATENATED: later Streams and Stream Padding
+
+  `XzBit E fl first inp cap i` (Lemmas/XzConcatFlip.lean) locates bit `i` in a (possibly concatenated) file as the decoder walks
+  it: `here` = in the Stream at the front, at a bit whose flip that Stream's decoder rejects (supplied by the single-Stream
+  theorems: `XzBit.of_header`, `concat_index_footer_bit`, `concat_block_field_bit`); `padding` = in the zero bytes that follow
+  the Stream at the front; `later` = recursively in what follows a Stream and a Stream Padding of 4k bytes. -/
+
+/-- **header_bitflip_rejected, all Streams and Stream Padding (what is proved of `header_bitflip_rejected_statement`).**
+    Any flags (in particular LZMA_CONCATENATED): a flip at a located bit makes `lzma_stream_decoder` + `lzma_code(FINISH)`
+    reject the file. Located bits are: in ANY Stream of the file, the Stream Header, every Block Header bit except the size
+    byte, Block Padding, Check, the Index except its indicator byte, the Stream Footer; and every bit of Stream Padding
+    (a damaged padding byte either breaks the multiple-of-four rule or is taken for the start of a Stream, which it cannot be). -/
+theorem header_bitflip_rejected_partial (E : Env) (hloc : PayloadLocal E) (hbd : PayloadBounded E) (fl : Flags)
+    (b : List UInt8) (cap : Nat) (i : Nat) (hbit : XzBit E fl true b cap i) :
+    (xzDecode E fl (flipBit b i) cap).ret ≠ .streamEnd := by
+  have h := xzLoop_flip E hloc hbd fl hbit ((flipBit b i).length + 1)
+  unfold xzDecode xzCall
+  simp only []
+  split
+  · simp
+  · exact h
+
+/-- Index / Stream Footer bits of the Stream at the front are located bits. -/
+theorem concat_index_footer_bit (E : Env) (hloc : PayloadLocal E) (hbd : PayloadBounded E) (fl : Flags) (first : Bool)
+    (inp : List UInt8) (cap : Nat) (hs : (streamOne E fl first inp cap).ret = .streamEnd) :
+    ∃ (c : Nat) (final : HashInfo),
+      (streamOne E fl first inp cap).consumed = STREAM_HEADER_SIZE + c + indexHashSize final + STREAM_HEADER_SIZE ∧
+      ∀ (i : Nat), 8 * (STREAM_HEADER_SIZE + c + 1) ≤ i → i < 8 * (streamOne E fl first inp cap).consumed →
+        XzBit E fl first inp cap i := by
+  obtain ⟨c, final, h1, _, h3⟩ := streamOne_index_footer_flip E hloc hbd fl first inp cap hs
+  exact ⟨c, final, h1, fun i hlo hhi => XzBit.here first inp cap i (h3 i hlo hhi)⟩
+
+/-- Block Header / Block Padding / Check bits of the Stream at the front are located bits. -/
+theorem concat_block_field_bit (E : Env) (hloc : PayloadLocal E) (hbd : PayloadBounded E) (fl : Flags)
+    (hign : fl.ignoreCheck = false) (first : Bool) (inp : List UInt8) (cap : Nat)
+    (hs : (streamOne E fl first inp cap).ret = .streamEnd)
+    (hsup : ∀ hdr, streamHeaderDecode (inp.take STREAM_HEADER_SIZE) = .ok hdr → hdr.check ≠ 0 → E.checkSupported hdr.check = true) :
+    ∃ (hdr : StreamFlags) (c : Nat) (final : HashInfo),
+      streamHeaderDecode (inp.take STREAM_HEADER_SIZE) = .ok hdr ∧
+      BlocksRun E fl hdr [] (inp.drop STREAM_HEADER_SIZE) cap (streamOne E fl first inp cap).out c final ∧
+      ∀ (j : Nat), ProtectedBit E fl hdr (inp.drop STREAM_HEADER_SIZE) cap j → j < 8 * c →
+        XzBit E fl first inp cap (8 * STREAM_HEADER_SIZE + j) := by
+  obtain ⟨hdr, c, final, h1, h2, h3⟩ := streamOne_blocks_flip E hloc hbd fl hign first inp cap hs hsup
+  exact ⟨hdr, c, final, h1, h2, fun j hp hj => XzBit.here first inp cap _ (h3 j hp hj)⟩
+
+/-- The same for the concrete decoder (no hypotheses on the payload decoder). -/
+theorem header_bitflip_rejected_std (fl : Flags) (b : List UInt8) (cap : Nat) (i : Nat)
+    (hbit : XzBit XzEnv.stdEnv fl true b cap i) : (xzDecode XzEnv.stdEnv fl (flipBit b i) cap).ret ≠ .streamEnd :=
+  header_bitflip_rejected_partial XzEnv.stdEnv payload_local_std payload_bounded_std fl b cap i hbit
+
 /-! ## .lz -/
 
 /-- **lzip_footer_enforced.**  If `lzma_lzip_decoder` (no LZMA_CONCATENATED) answers LZMA_STREAM_END, the input starts
@@ -408,6 +470,31 @@ example : (List.range 52).all (fun n => (xzDecode toyEnv {} (toyXz.take n)).ret 
 -- lzma_stream_buffer_decode: success is LZMA_OK; a truncated buffer is LZMA_DATA_ERROR with the positions restored
 example : xzBufferDecode toyEnv 0 toyXz = { ret := .ok, out := [0x61, 0x62, 0x63], consumed := 52 } := by decide +kernel
 example : xzBufferDecode toyEnv 0 (toyXz.take 40) = { ret := .dataError, out := [], consumed := 0 } := by decide +kernel
+/-! ### LZMA_CONCATENATED: two toy Streams with four bytes of Stream Padding between them -/
+
+def toyConcat : List UInt8 := toyXz ++ [0, 0, 0, 0] ++ toyXz
+def flConcat : Flags := { concatenated := true }
+
+example : xzDecode toyEnv flConcat toyConcat = { ret := .streamEnd, out := [0x61, 0x62, 0x63, 0x61, 0x62, 0x63], consumed := 108 } := by
+  decide +kernel
+
+/-- bit 427 lies in the second padding byte: a located bit (`XzBit.padding`) … -/
+example : XzBit toyEnv flConcat true toyConcat UNLIMITED 427 :=
+  XzBit.padding true toyConcat UNLIMITED 427 4 toyXz (by decide +kernel) rfl (by decide +kernel) (by decide +kernel) (by decide +kernel)
+/-- … bit 416 in the first padding byte (then the damaged byte is taken for the start of a Stream) … -/
+example : XzBit toyEnv flConcat true toyConcat UNLIMITED 416 :=
+  XzBit.padding true toyConcat UNLIMITED 416 4 toyXz (by decide +kernel) rfl (by decide +kernel) (by decide +kernel) (by decide +kernel)
+/-- … bit 50 of the SECOND Stream's header (`XzBit.later` + `XzBit.of_header`): file bit 8·56 + 50 -/
+example : XzBit toyEnv flConcat true toyConcat UNLIMITED (8 * (52 + 4) + 50) := by
+  have h := XzBit.later true toyConcat UNLIMITED 4 50 (E := toyEnv) (fl := flConcat) (by decide +kernel) rfl (by decide +kernel)
+    (by decide +kernel) (XzBit.of_header toyEnv flConcat false _ _ (by decide +kernel) 50 (by decide))
+  have e : 8 * ((streamOne toyEnv flConcat true toyConcat UNLIMITED).consumed + 4) + 50 = 8 * (52 + 4) + 50 := by decide +kernel
+  rw [e] at h
+  exact h
+/-- … and the decoder indeed rejects all three (as `header_bitflip_rejected_partial` says it must) -/
+example : [427, 416, 8 * (52 + 4) + 50].map (fun i => (xzDecode toyEnv flConcat (flipBit toyConcat i)).ret)
+    = [.dataError, .dataError, .dataError] := by decide +kernel
+
 -- the toy payload decoder satisfies `PayloadBounded` (a hypothesis of `prefix_free`)
 example : PayloadBounded toyEnv := by
   intro fs x cap
